@@ -316,3 +316,36 @@ M('c11c-cap-drops-before-repeated', 'C11', 'break', RG,
 M('c11b-new-dead-flag', 'C11', 'break', TX,
   '    // Check for PUT requests, which we need to treat as file uploads.',
   '    if (cl != NULL && (cl->flags & HTP_FIELD_RAW_NUL)) tx->flags |= HTP_REQUEST_SMUGGLING;\n    // Check for PUT requests, which we need to treat as file uploads.', 'C11.b')
+
+# ---------------- C12
+UT, CFGC = 'htp/htp_util.c', 'htp/htp_config.c'
+M('c12a-dot-segments-before-utf8', 'C12', 'break', UT,
+  '        htp_decode_path_inplace(tx, normalized->path);\n',
+  '        htp_decode_path_inplace(tx, normalized->path);\n        htp_normalize_uri_path_inplace(normalized->path);\n', 'C12.a',
+  edits=[(UT, '        htp_decode_path_inplace(tx, normalized->path);\n', '        htp_decode_path_inplace(tx, normalized->path);\n        htp_normalize_uri_path_inplace(normalized->path);\n'),
+         (UT, '        // RFC normalization.\n        htp_normalize_uri_path_inplace(normalized->path);\n', '')])
+M('c12a-validate-skipped-when-bestfit-off', 'C12', 'break', UT,
+  '            // No decoding, but try to validate the path as a UTF-8 stream.\n            htp_utf8_validate_path(tx, normalized->path);',
+  '            // No decoding, but try to validate the path as a UTF-8 stream.\n            if (tx->cfg->decoder_cfgs[HTP_DECODER_URL_PATH].utf8_invalid_unwanted != HTP_UNWANTED_IGNORE) htp_utf8_validate_path(tx, normalized->path);', 'C12.a')
+M('c12b-loop-guard-wpos-dropped', 'C12', 'break', UT,
+  '    size_t wpos = 0;\n    int previous_was_separator = 0;\n\n    while ((rpos < len) && (wpos < len)) {',
+  '    size_t wpos = 0;\n    int previous_was_separator = 0;\n\n    while (rpos < len) {', 'C12.b')
+M('c12b-double-write-per-iteration', 'C12', 'break', UT,
+  '                    data[wpos++] = bestfit_codepoint(cfg, HTP_DECODER_URL_PATH, codepoint);',
+  '                    data[wpos++] = bestfit_codepoint(cfg, HTP_DECODER_URL_PATH, codepoint);\n                    if (codepoint > 0xffff) data[wpos++] = cfg->decoder_cfgs[HTP_DECODER_URL_PATH].bestfit_replacement_byte;', 'C12.b')
+M('c12b-adjust-len-rpos', 'C12', 'break', UT,
+  '            data[wpos++] = c;\n        }\n    }\n\n    bstr_adjust_len(path, wpos);',
+  '            data[wpos++] = c;\n        }\n    }\n\n    bstr_adjust_len(path, rpos);', 'C12.b')
+M('c12c-encoded-nul-raise-dropped-u-arm', 'C12', 'break', UT,
+  '                                if (c == 0) {\n                                    tx->flags |= HTP_PATH_ENCODED_NUL;\n\n                                    if (cfg->decoder_cfgs[HTP_DECODER_URL_PATH].nul_encoded_unwanted',
+  '                                if (c == 0) {\n                                    if (cfg->decoder_cfgs[HTP_DECODER_URL_PATH].nul_encoded_unwanted', 'C12.c', tier='quick')
+M('c12c-raw-nul-raise-removed', 'C12', 'break', UT,
+  '                tx->flags |= HTP_PATH_RAW_NUL;\n\n', '', 'C12.c')
+M('c12c-overlong-raise-removed', 'C12', 'break', UT,
+  'tx->flags |= HTP_PATH_UTF8_OVERLONG;', ';', 'C12.c', count=6)
+M('c12d-setter-wrong-field', 'C12', 'break', CFGC,
+  '    cfg->decoder_cfgs[ctx].nul_raw_terminates = convert_to_0_or_1(enabled);',
+  '    cfg->decoder_cfgs[ctx].nul_encoded_terminates = convert_to_0_or_1(enabled);', 'C12.d')
+M('c12d-defaults-loop-other-field', 'C12', 'break', CFGC,
+  '            cfg->decoder_cfgs[i].utf8_invalid_unwanted = unwanted;',
+  '            cfg->decoder_cfgs[i].url_encoding_invalid_unwanted = unwanted;', 'C12.d')
